@@ -6,6 +6,10 @@
    interleaving; events that are not enabled are no-ops, so every list is an execution. *)
 From SigM Require Import Base Handover.
 From SigP Require Import HandoverProofs.
+From Coq Require String.
+From SigM Require LockTrace.
+From SigG Require GenLocks.
+From SigP Require LockTraceProofs GenLocksCheck GenLocksProofs.
 Open Scope nat_scope.
 
 (* A query returns every block that was flushed before the query began EXACTLY ONCE, for record
@@ -102,3 +106,28 @@ Theorem C11_lock_exclusion :
   writers_inside ts <= 1 /\ (writers_inside ts = 1 -> readers ts = 0).
 Proof. exact lock_exclusion. Qed.
 Print Assumptions C11_lock_exclusion.
+
+(* ==== lock discipline of the code as it is NOW (skeletons regenerated from /repo's type-checked source on every run) ====
+   coq/gen/GenLocks.v: the lock / channel skeleton of every function of the 19 packages around ingest, rotation, metadata
+   and query execution (gotrans locktrace; static calls among them followed six levels deep, so a lock taken by a callee is
+   seen in the caller).  LockTrace.analyse computes every lock set a skeleton can reach; LockTraceProofs.analyse_sound:
+   a clean report covers EVERY trace (all branch choices, any number of loop iterations). *)
+Theorem C11_lock_analysis_sound : forall (fuel : nat) (s : LockTrace.stm),
+  LockTrace.analyse fuel s = [] -> forall t o, LockTrace.exec s t o -> LockTrace.trace_ok t.
+Proof. exact LockTraceProofs.analyse_sound. Qed.
+Print Assumptions C11_lock_analysis_sound.
+
+(* no function of those packages, other than the listed hazards of the unchanged tree, has a trace on which the goroutine
+   acquires a mutex it already holds (the recursive read lock that C11_recursive_read_lock_refuted shows to be fatal) or
+   blocks on a channel while holding a lock *)
+Theorem C11_lock_discipline : forall (name : String.string) (s : LockTrace.stm),
+  In (name, s) GenLocks.lk_all -> GenLocksCheck.allowed name GenLocksCheck.lk_exceptions = [] ->
+  forall t o, LockTrace.exec s t o -> LockTrace.trace_ok t.
+Proof. exact GenLocksProofs.lk_discipline. Qed.
+Print Assumptions C11_lock_discipline.
+
+(* non-vacuity: the hand-over functions (rotation, metadata publication and deletion, unrotated info, segstore creation,
+   the searcher's segment enumeration) are present and not among the exceptions *)
+Theorem C11_lock_discipline_covers_handover :
+  forallb GenLocksProofs.lk_covered GenLocksProofs.lk_c11_functions = true.
+Proof. exact GenLocksProofs.lk_c11_functions_covered. Qed.
